@@ -20,6 +20,24 @@ def generate(report):
         ctx.add_const([nm, "Self::" + nm, "BFieldElement::" + nm], nm, "u64")
     _, ex = find_const(src, "MAX")
     out += "Definition MAX : Z := %d.\n" % const_eval(ex, consts)
+    consts["MAX"] = consts["Self::MAX"] = consts["BFieldElement::MAX"] = const_eval(ex, consts)
+    ctx.add_const(["MAX", "Self::MAX", "BFieldElement::MAX"], "MAX", "u64")
+    # any FURTHER integer constant the impl declares (e.g. a named 2^32 - 1 introduced by a rewrite): evaluated in the
+    # order of declaration; one whose initialiser is outside the constant subset is skipped (a function that uses it is then
+    # reported as untranslatable, as before)
+    for m in re.finditer(r"^\s*(?:pub(?:\([a-z]+\))?\s+)?const\s+([A-Z][A-Z0-9_]*)\s*:\s*(u8|u16|u32|u64|u128|usize)\s*=\s*([^;]+);",
+                         src, re.M):
+        nm, ty, ex = m.group(1), m.group(2), m.group(3)
+        if nm in consts:
+            continue
+        try:
+            val = const_eval(ex.replace("!Self::P", str((~consts["P"]) % 2 ** 64)).replace("!P", str((~consts["P"]) % 2 ** 64)),
+                             consts) % 2 ** WIDTH[ty]
+        except Exception:
+            continue
+        consts[nm] = consts["Self::" + nm] = consts["BFieldElement::" + nm] = val
+        # used as a LITERAL in the generated code (no named definition: the arithmetic proofs see the value)
+        ctx.add_const([nm, "Self::" + nm, "BFieldElement::" + nm], zlit(val), ty)
     m = re.search(r"MINUS_TWO_INVERSE\s*:\s*Self\s*=\s*Self::new\((.*?)\)", src)
     out += "Definition MINUS_TWO_INVERSE_ARG : Z := %d.\n" % const_eval(m.group(1), consts)
     roots = re.search(r"PRIMITIVE_ROOTS[^=]*=\s*phf_map!\s*\{(.*?)\};", src, re.S).group(1)
